@@ -87,6 +87,8 @@ JudgeOk(r) ==
   \* ---- C01 (static hint for the dynamic decider) : a lowered optional call that dropped its receiver
   /\ IF m.ok /\ HasOrigin(e, D21Mark) THEN Verdict(r.rid, "C01", "dev", {"D21-optional-call-loses-receiver"})
      ELSE TRUE
+  /\ IF m.ok /\ \E i \in siteIdx : sites[i].ns /\ sites[i].id \in hookedIds
+     THEN Verdict(r.rid, "C01", "dev", {"D22-arguments-evaluated-before-absent-callee-throws"}) ELSE TRUE
   \* ---- C03 (static half) : hook argument lists
   /\ IF whys \subseteq KnownDevWhys /\ whys # {} THEN Verdict(r.rid, "C03", "dev", whys)
      ELSE IF whys # {} THEN Verdict(r.rid, "C03", "reject", whys)
